@@ -59,6 +59,10 @@ type Sim struct {
 
 	heavySigops         bool // buildPoolTx produces sigop-heavy transactions
 	preferWitness       bool // buildPoolTx spends witness-program outputs only
+	// failedAttach: blocks the node itself found invalid while trying to
+	// attach a branch in one ProcessBlock call - the block that failed
+	// validation and every later block of that branch up to the delivered one
+	failedAttach map[*MBlock]bool
 	ps                  *poolState
 	reorgSincePoolEmpty bool // a reorganisation happened while the pool was not empty
 }
@@ -227,6 +231,22 @@ func (s *Sim) Deliver(b *MBlock) {
 	}
 	if !tooNew || preHave {
 		s.delivered[b] = true
+	}
+	if err != nil && isRule(err) && !preHave && s.have(b) && !s.isOrphan(b) {
+		// stored, then the attempt to make its branch the active chain
+		// failed: the node validated the branch up to its first invalid block
+		// Y and knows that Y and everything after it up to b is invalid
+		if y := b.FirstInvalid(); y != nil && y.Class == ClsConnect && (y.Parent == nil || y.Parent.ChainValid()) {
+			if _, _, failed, _, known := chain.VerifNodeStatus(&y.Hash); known && failed {
+				if s.failedAttach == nil {
+					s.failedAttach = map[*MBlock]bool{}
+				}
+				for z := b; z != nil && z != y.Parent; z = z.Parent {
+					s.failedAttach[z] = true
+				}
+				r.Probe("branch-failed-validation-while-attaching")
+			}
+		}
 	}
 	if err != nil && !preHave && !s.have(b) {
 		// refused and not stored (e.g. an ancestor is known invalid): the
